@@ -86,6 +86,11 @@ def configs(tier):
                 continue
             out.append({'backend': backend, 'K': K, 'nc': 2, 'dtype': 'int16', 'item': item,
                         'sel': None if item != 'slice_ss' else [1], 'prior': True})
+    # slice bounds / integer index given as unsigned NumPy scalars (what indexing with entries of a uint array gives)
+    for backend, K in (('flat', 2), ('flat', 3), ('npy', 1)):
+        for item, dtn in (('slice_ss', 'uint8'), ('slice_ss', 'uint32'), ('int', 'uint16'), ('slice_sn', 'uint8')):
+            out.append({'backend': backend, 'K': K, 'nc': 2, 'dtype': 'int16', 'item': item, 'sel': None,
+                        'index_dtype': dtn})
     # the loader always passes dtype=...: on self-describing backends the reader's dtype is the array's
     out.append({'backend': 'meta', 'meta_backend': 'npy', 'K': 1, 'nc': 2, 'dtype': 'float32', 'item': 'meta',
                 'sel': None, 'dtype_kw': 'int16'})
@@ -119,10 +124,14 @@ def run_config(cfg, e):
         kind = cfg['item']
         info = {}
         # ---- the index expression ----
+        idt = cfg.get('index_dtype')
+        tyd = (lambda v: v) if idt is None else (lambda v: None if v is None else snp.mkscalar(v, np.dtype(idt)))
         if kind == 'int':
             i = e.int('i')
             e.assume(sand(i >= -n, i < n))
-            item = i
+            if idt is not None:
+                e.assume(sand(i >= 0, i <= int(np.iinfo(idt).max)))
+            item = tyd(i)
             L = 1
             rowf = lambda j: ite(i < 0, i + n, i)
             info = lambda ev: {'item': ['int', ev(i)]}
@@ -132,11 +141,13 @@ def run_config(cfg, e):
             for v in (a, b):
                 if v is not None:
                     e.assume(sand(v >= -n, v <= n))
+                    if idt is not None:
+                        e.assume(sand(v >= 0, v <= int(np.iinfo(idt).max)))
             a1 = 0 if a is None else ite(a < 0, a + n, a)
             b1 = n if b is None else ite(b < 0, b + n, b)
             e.assume(b1 - a1 >= 1)
             e.prefer.append(b1 - a1 <= 6)
-            item = slice(a, b)
+            item = slice(tyd(a), tyd(b))
             L = b1 - a1
             rowf = lambda j: a1 + j
             info = lambda ev: {'item': ['slice', None if a is None else ev(a), None if b is None else ev(b)]}
@@ -164,7 +175,7 @@ def run_config(cfg, e):
             e.assume(sand(p0 >= 0, p0 < p1, p1 <= n))
             e.prefer.append(p1 - p0 <= 6)
             prior = (p0, p1)
-        e.case_builder = lambda ev: dict(rec.case(ev), sel=cfg['sel'], dtype_kw=cfg.get('dtype_kw'),
+        e.case_builder = lambda ev: dict(rec.case(ev), sel=cfg['sel'], dtype_kw=cfg.get('dtype_kw'), index_dtype=idt,
                                          prior=None if prior is None else [ev(p0), ev(p1)], **info(ev))
         try:
             reader = rec.make_reader(pkg, dtype_kw=cfg.get('dtype_kw'))
@@ -213,10 +224,12 @@ def replay(case):
         r = rr.reader(dtype_kw=case.get('dtype_kw'))
         concat = rr.data
         it = case['item']
+        ty = (lambda v: v) if not case.get('index_dtype') else (
+            lambda v: None if v is None else np.dtype(case['index_dtype']).type(v))
         if it[0] == 'int':
-            item = it[1]
+            item = ty(it[1])
         elif it[0] == 'slice':
-            item = slice(it[1], it[2])
+            item = slice(ty(it[1]), ty(it[2]))
         elif it[0] == 'list':
             item = list(it[1])
         elif it[0] == 'uarray':
